@@ -972,6 +972,17 @@ def explore_c12(ctx, res, replay_ops=None):
         res.traces_validated += 1
         res.sample({"op": op[:300], "impl": strip_annot(im)[:160]})
         prev_state = state
+    # exactly one notification per accepted recharge also when the consumer has it and goes away without answering (http stream)
+    nops = [o for o in (replay_ops or []) if o.startswith("http case notifydrop")] if replay_ops is not None else ["http case notifydrop - -"] * 3
+    for op, im in zip(nops, core.harness_run(ctx.harness, "http", nops) if nops else []):
+        res.evaluations += 1
+        res.traces_validated += 1
+        res.dist["notification-dropped-by-consumer"] += 1
+        d = dict(x.split("=", 1) for x in im.split(" ") if "=" in x)
+        if d.get("st") != "204" or d.get("n") != "1":
+            res.violation("oracle", "C12: one accepted recharge, a consumer that has the notification and goes away without answering: the recharge "
+                          "was answered %s and the consumer got %s notifications (204 and exactly one are due)" % (d.get("st", im[:40]), d.get("n")),
+                          [op, "# impl: " + im])
     # a reference can also become stale while the request naming it waits behind the release of its session
     _conc_phase(ctx, res, "C12", "stale", replay_ops, 30, 300)
     # requests naming unknown references in loops next to creates, updates and releases of the same subscriber (race-detector build):
@@ -2195,10 +2206,13 @@ def explore_c11(ctx, res, replay_ops=None):
                           [op, "# impl: " + im])
         elif st[:1] not in ("2", "3", "4"):
             res.violation("oracle", "C11: unexpected status %s" % st, [op, "# impl: " + im])
+        if kind == "notifydrop" and d.get("n") != "1":
+            res.violation("oracle", "%s: one accepted recharge, a consumer that has the notification and goes away without answering: the consumer "
+                          "got %s notifications (exactly one is due)" % (ctx.pid, d.get("n")), [op, "# impl: " + im])
         if kind.startswith("notify") and (st != "204" or fu != "200"):
             res.violation("oracle", "C11: recharge notification to a consumer that %s: the recharge request was answered %s, the update of the same subscriber %s "
                           "(deadlines 8 s / 4 s: the subscriber is blocked while the notification is outstanding)"
-                          % ("answers after 5 s" if kind == "notifyslow" else "sends an update before it answers", st, fu), [op, "# impl: " + im])
+                          % ("answers after 5 s" if kind == "notifyslow" else "goes away without answering" if kind == "notifydrop" else "sends an update before it answers", st, fu), [op, "# impl: " + im])
         elif fu == "hang" or fu2 == "hang":
             res.violation("oracle", "C11: after the request a well-formed request for the same subscriber was not answered within 4 s (subscriber blocked)",
                           [op, "# impl: " + im])
